@@ -74,6 +74,8 @@ use crate::utils::{
 
 pub use crate::p2p::header_ex::HeaderExError;
 pub use crate::p2p::shrex::ShrExError;
+#[cfg(eigerco_lumina_verif)]
+pub use crate::p2p::header_ex::verif_hooks as header_ex_verif_hooks;
 
 // Maximum size of a [`Multihash`].
 pub(crate) const MAX_MH_SIZE: usize = 64;
